@@ -49,8 +49,33 @@ enum Fac {
     Pos(u64, u64),
     /// raw factor before the filter of `push_child_ext` / `from_json_value`
     Raw(bool, u64, u64),
-    /// 1e308: finite, positive, far outside the grid (oracle only)
+    /// 1e308: finite, positive, far outside the grid
     Big,
+    /// a special value handed to `push_child_ext`: 0 = +inf (passes its filter), 1 = -inf, 2 = NaN
+    ApiSpecial(u8),
+    /// handed to `FlexChild::flex` unfiltered (flex built as `FlexRef`): finite k/4 with sign, or special
+    Direct(FV),
+}
+
+#[derive(Clone, Debug, PartialEq)]
+enum FV {
+    Fin(bool, u64, u64),
+    Inf(bool),
+    Nan,
+}
+fn fv_tok(v: &FV) -> String {
+    match v {
+        FV::Fin(neg, n, d) => format!("{}{n}/{d}", if *neg { "-" } else { "" }),
+        FV::Inf(neg) => if *neg { "-inf".into() } else { "inf".into() },
+        FV::Nan => "nan".into(),
+    }
+}
+fn fv_f64(v: &FV) -> f64 {
+    match v {
+        FV::Fin(neg, n, d) => if *neg { -(*n as f64) / *d as f64 } else { *n as f64 / *d as f64 },
+        FV::Inf(neg) => if *neg { f64::NEG_INFINITY } else { f64::INFINITY },
+        FV::Nan => f64::NAN,
+    }
 }
 
 #[derive(Clone, Debug, PartialEq)]
@@ -73,7 +98,8 @@ enum T {
     Image(usize, usize),
     Fill,
     Unit,
-    Bar(bool),
+    /// scroll bar: horizontal?, visible fraction, offset fraction (any f64)
+    Bar(bool, f64, f64),
     None_,
     Flex(bool, u8, Vec<FC>),
     Cont(usize, usize, Al, Al, [usize; 4], bool, Box<T>),
@@ -104,7 +130,7 @@ fn al_tok(a: &Al) -> String {
     }
 }
 fn round_up(a: usize, b: usize) -> usize {
-    if b == 0 || a == 0 { 0 } else { (a + b - 1) / b }
+    if b == 0 || a == 0 { 0 } else { a / b + (a % b != 0) as usize }
 }
 fn cells_of(ppc: (usize, usize), ph: usize, pw: usize) -> (usize, usize) {
     if ppc.0 == 0 || ppc.1 == 0 || ph == 0 || pw == 0 { (0, 0) } else { (round_up(ph, ppc.0), round_up(pw, ppc.1)) }
@@ -145,7 +171,7 @@ fn tokens(t: &T, ppc: (usize, usize), id: &mut usize, out: &mut Vec<String>) {
         T::Image(h, w) => out.extend(["I".into(), format!("{h}x{w}")]),
         T::Fill => out.push("F".into()),
         T::Unit => out.push("U".into()),
-        T::Bar(hor) => out.extend(["B".into(), if *hor { "h" } else { "v" }.into()]),
+        T::Bar(hor, _, _) => out.extend(["B".into(), if *hor { "h" } else { "v" }.into()]),
         T::None_ => out.push("N".into()),
         T::Flex(hor, j, cs) => {
             out.extend(["L".into(), if *hor { "h" } else { "v" }.into(), j.to_string(), cs.len().to_string()]);
@@ -155,6 +181,8 @@ fn tokens(t: &T, ppc: (usize, usize), id: &mut usize, out: &mut Vec<String>) {
                     Fac::Pos(n, d) => format!("{n}/{d}"),
                     Fac::Raw(neg, n, d) => format!("j{}{n}/{d}", if *neg { "-" } else { "" }),
                     Fac::Big => "big".into(),
+                    Fac::ApiSpecial(k) => ["ainf", "a-inf", "anan"][(*k).min(2) as usize].into(),
+                    Fac::Direct(v) => fv_tok(v),
                 });
                 out.push(al_tok(&c.align));
                 out.push(if c.face { "1" } else { "0" }.into());
@@ -233,11 +261,15 @@ fn tree_json(t: &T) -> Value {
         T::Image(h, w) => json!({"k": "image", "h": s(h), "w": s(w)}),
         T::Fill => json!({"k": "fill"}),
         T::Unit => json!({"k": "unit"}),
-        T::Bar(hor) => json!({"k": "bar", "hor": hor}),
+        T::Bar(hor, v, o) => json!({"k": "bar", "hor": hor, "vis": v.to_bits().to_string(), "off": o.to_bits().to_string()}),
         T::None_ => json!({"k": "none"}),
         T::Flex(hor, j, cs) => json!({"k": "flex", "hor": hor, "j": j, "cs": cs.iter().map(|c| json!({
             "flex": match &c.flex { Fac::None => json!(null), Fac::Pos(n, d) => json!(["pos", n, d]),
-                                    Fac::Raw(neg, n, d) => json!(["raw", neg, n, d]), Fac::Big => json!(["big"]) },
+                                    Fac::Raw(neg, n, d) => json!(["raw", neg, n, d]), Fac::Big => json!(["big"]),
+                                    Fac::ApiSpecial(k) => json!(["apispecial", k]),
+                                    Fac::Direct(FV::Fin(neg, n, d)) => json!(["direct", neg, n, d]),
+                                    Fac::Direct(FV::Inf(neg)) => json!(["directinf", neg]),
+                                    Fac::Direct(FV::Nan) => json!(["directnan"]) },
             "align": al_tok(&c.align), "face": c.face, "view": tree_json(&c.view)})).collect::<Vec<_>>()}),
         T::Cont(h, w, av, ah, m, face, c) => json!({"k": "cont", "h": s(h), "w": s(w), "av": al_tok(av), "ah": al_tok(ah),
             "m": m.iter().map(|x| x.to_string()).collect::<Vec<_>>(), "face": face, "child": tree_json(c)}),
@@ -265,7 +297,11 @@ fn tree_parse(v: &Value) -> T {
         "image" => T::Image(us(&v["h"]), us(&v["w"])),
         "fill" => T::Fill,
         "unit" => T::Unit,
-        "bar" => T::Bar(v["hor"].as_bool().unwrap_or(true)),
+        "bar" => T::Bar(
+            v["hor"].as_bool().unwrap_or(true),
+            f64::from_bits(v["vis"].as_str().and_then(|s| s.parse().ok()).unwrap_or(0)),
+            f64::from_bits(v["off"].as_str().and_then(|s| s.parse().ok()).unwrap_or(0)),
+        ),
         "flex" => T::Flex(
             v["hor"].as_bool().unwrap_or(true),
             v["j"].as_u64().unwrap_or(0) as u8,
@@ -274,6 +310,10 @@ fn tree_parse(v: &Value) -> T {
                     Some("pos") => Fac::Pos(c["flex"][1].as_u64().unwrap_or(1), c["flex"][2].as_u64().unwrap_or(1)),
                     Some("raw") => Fac::Raw(c["flex"][1].as_bool().unwrap_or(false), c["flex"][2].as_u64().unwrap_or(1), c["flex"][3].as_u64().unwrap_or(1)),
                     Some("big") => Fac::Big,
+                    Some("apispecial") => Fac::ApiSpecial(c["flex"][1].as_u64().unwrap_or(0) as u8),
+                    Some("direct") => Fac::Direct(FV::Fin(c["flex"][1].as_bool().unwrap_or(false), c["flex"][2].as_u64().unwrap_or(1), c["flex"][3].as_u64().unwrap_or(1))),
+                    Some("directinf") => Fac::Direct(FV::Inf(c["flex"][1].as_bool().unwrap_or(false))),
+                    Some("directnan") => Fac::Direct(FV::Nan),
                     _ => Fac::None,
                 },
                 align: al_parse(&c["align"]),
@@ -367,8 +407,29 @@ fn gen_leaf(rng: &mut Rng, huge: bool) -> T {
         10 => T::Image(rng.below(120) as usize, rng.below(70) as usize),
         11 | 12 => T::Fill,
         13 => T::Unit,
-        14 => T::Bar(rng.chance(1, 2)),
+        14 => T::Bar(rng.chance(1, 2), gen_fraction(rng), gen_fraction(rng)),
         _ => T::None_,
+    }
+}
+/// scroll bar fractions: mostly inside [0, 1], also negative, above one, off any grid and special values
+fn gen_fraction(rng: &mut Rng) -> f64 {
+    match rng.below(12) {
+        0 => f64::NAN,
+        1 => *rng.pick(&[f64::INFINITY, f64::NEG_INFINITY, 1e300, -1e300, 1.0 - f64::EPSILON / 2.0, f64::MIN_POSITIVE]),
+        2 => -(rng.below(17) as f64) / 8.0,
+        3 => 1.0 + rng.below(40) as f64 / 8.0,
+        4 | 5 => rng.below(1001) as f64 / 1000.0,
+        _ => rng.below(9) as f64 / 8.0,
+    }
+}
+fn gen_direct(rng: &mut Rng) -> Fac {
+    match rng.below(12) {
+        0..=3 => Fac::None,
+        4 => Fac::Direct(FV::Nan),
+        5 => Fac::Direct(FV::Inf(rng.chance(1, 3))),
+        6 | 7 => Fac::Direct(FV::Fin(true, rng.below(13), 4)),
+        8 => Fac::Direct(FV::Fin(false, 0, 4)),
+        _ => Fac::Direct(FV::Fin(false, 1 + rng.below(16), 4)),
     }
 }
 fn gen_factor(rng: &mut Rng, raw: bool) -> Fac {
@@ -376,6 +437,7 @@ fn gen_factor(rng: &mut Rng, raw: bool) -> Fac {
         0..=3 => Fac::None,
         4 if raw => Fac::Raw(rng.chance(1, 2), rng.below(9), 4),
         5 if raw => Fac::Raw(false, 0, 4),
+        6 if raw && rng.chance(1, 3) => Fac::ApiSpecial(rng.below(3) as u8),
         _ => {
             let top = if rng.chance(1, 4) { 64 } else { 12 };
             Fac::Pos(1 + rng.below(top), 4)
@@ -393,10 +455,11 @@ fn gen_tree(rng: &mut Rng, depth: u32, huge: bool, raw: bool) -> T {
                 1 => 1,
                 _ => rng.below(6),
             };
+            let direct = rng.chance(1, 8);
             let mut cs: Vec<FC> = (0..n)
-                .map(|_| FC { flex: gen_factor(rng, raw), align: gen_align(rng), face: rng.chance(1, 3), view: gen_tree(rng, depth - 1, huge, raw) })
+                .map(|_| FC { flex: if direct { gen_direct(rng) } else { gen_factor(rng, raw) }, align: gen_align(rng), face: rng.chance(1, 3), view: gen_tree(rng, depth - 1, huge, raw) })
                 .collect();
-            if rng.chance(1, 12) {
+            if !direct && rng.chance(1, 12) {
                 // a finite factor far outside of the grid, as the last flex child
                 if let Some(c) = cs.iter_mut().rev().find(|c| matches!(c.flex, Fac::Pos(..) | Fac::Raw(false, 1.., _))) {
                     c.flex = Fac::Big;
@@ -455,8 +518,15 @@ fn gen_case(rng: &mut Rng) -> Case {
         0 => (ct[2].min(24), ct[3].min(40)),
         _ => (rng.below(14) as usize, rng.below(30) as usize),
     };
-    let ppc = *rng.pick(&[(37usize, 15usize), (37, 15), (20, 10), (16, 8), (9, 5), (0, 0)]);
-    Case { tree, glyphs: rng.chance(1, 2), ppc, ct, surf, json }
+    let glyphs = rng.chance(1, 2);
+    let mut ppc = *rng.pick(&[(37usize, 15usize), (37, 15), (20, 10), (16, 8), (9, 5), (0, 0)]);
+    if rng.chance(1, 5) && !(glyphs && has_frame(&tree)) {
+        // large cells (a frame would rasterise 3x3 cells of that many pixels: kept to the small values)
+        let big = [100usize, 4096, 1 << 20, 1 << 32, (1 << 62) + 1, 1 << 63, usize::MAX];
+        ppc = (*rng.pick(&big), *rng.pick(&big));
+    }
+    let json = json && !api_only(&tree);
+    Case { tree, glyphs, ppc, ct, surf, json }
 }
 
 fn has_flex_factor(t: &T) -> bool {
@@ -481,11 +551,29 @@ fn dyn_in_dyn(t: &T, under: bool) -> bool {
         _ => false,
     }
 }
+/// factors only the API can express (special values, unfiltered ones)
+fn api_only(t: &T) -> bool {
+    match t {
+        T::Flex(_, _, cs) => cs.iter().any(|c| matches!(c.flex, Fac::ApiSpecial(_) | Fac::Direct(_)) || api_only(&c.view)),
+        T::Cont(.., c) | T::Frame(c) | T::Tag(c) => api_only(c),
+        T::Dyn(_, a, b) => api_only(a) || api_only(b),
+        _ => false,
+    }
+}
+fn has_frame(t: &T) -> bool {
+    match t {
+        T::Frame(_) => true,
+        T::Flex(_, _, cs) => cs.iter().any(|c| has_frame(&c.view)),
+        T::Cont(.., c) | T::Tag(c) => has_frame(c),
+        T::Dyn(_, a, b) => has_frame(a) || has_frame(b),
+        _ => false,
+    }
+}
 /// scroll bars under huge extents: `ScrollBar::render` iterates over the whole major extent
 const BAR_HUGE: bool = true;
 fn has_bar(t: &T) -> bool {
     match t {
-        T::Bar(_) => true,
+        T::Bar(..) => true,
         T::Flex(_, _, cs) => cs.iter().any(|c| has_bar(&c.view)),
         T::Cont(.., c) | T::Frame(c) | T::Tag(c) => has_bar(c),
         T::Dyn(_, a, b) => has_bar(a) || has_bar(b),
@@ -545,7 +633,7 @@ impl Terminal for Rec {
 }
 fn make_ctx(glyphs: bool, ppc: (usize, usize)) -> ViewContext {
     let term = Rec {
-        size: TerminalSize { cells: Size::new(10, 10), pixels: Size::new(ppc.0 * 10, ppc.1 * 10) },
+        size: TerminalSize { cells: Size::new(1, 1), pixels: Size::new(ppc.0, ppc.1) },
         caps: TerminalCaps { glyphs, ..TerminalCaps::default() },
     };
     ViewContext::new(&term).expect("ctx")
@@ -580,10 +668,28 @@ fn ch_char(c: &Ch) -> char {
 type Trace = Arc<Mutex<Vec<(usize, [usize; 4], (usize, usize))>>>;
 type ProbeLog = Arc<Mutex<Vec<(usize, Shape)>>>;
 
-#[derive(Clone)]
+#[derive(Clone, Default)]
 struct Env {
     probes: ProbeLog,
     trace: Trace,
+    /// views stored as layout data (by `Dynamic`, cached `ref`): address -> what the model calls it
+    data: Arc<Mutex<HashMap<usize, char>>>,
+    /// node whose `render` is replaced by a no-op (differential rendering)
+    mute: Option<usize>,
+}
+fn view_addr(v: &ArcView<'static>) -> usize {
+    Arc::as_ptr(v) as *const () as usize
+}
+
+/// same layout as the wrapped view, draws nothing
+struct Mute(ArcView<'static>);
+impl View for Mute {
+    fn render(&self, _ctx: &ViewContext, _surf: TerminalSurface<'_>, _layout: ViewLayout<'_>) -> Result<(), Error> {
+        Ok(())
+    }
+    fn layout(&self, ctx: &ViewContext, ct: BoxConstraint, layout: ViewMutLayout<'_>) -> Result<(), Error> {
+        self.0.layout(ctx, ct, layout)
+    }
 }
 
 struct Probe {
@@ -655,6 +761,8 @@ fn factor_of(f: &Fac) -> Option<f64> {
         Fac::Pos(n, d) => Some(*n as f64 / *d as f64),
         Fac::Raw(neg, n, d) => Some(if *neg { -(*n as f64) / *d as f64 } else { *n as f64 / *d as f64 }),
         Fac::Big => Some(1e308),
+        Fac::ApiSpecial(k) => Some([f64::INFINITY, f64::NEG_INFINITY, f64::NAN][(*k).min(2) as usize]),
+        Fac::Direct(v) => Some(fv_f64(v)),
     }
 }
 fn text_of(id: usize, cells: &[TC], wraps: bool) -> Text {
@@ -673,6 +781,7 @@ fn text_of(id: usize, cells: &[TC], wraps: bool) -> Text {
 
 /// wrap a built view: trace of (constraint, size) for the oracle, plus a transparent wrapper
 fn wrap(env: &Env, id: usize, v: ArcView<'static>) -> ArcView<'static> {
+    let v: ArcView<'static> = if env.mute == Some(id) { Mute(v).arc() } else { v };
     let trace = env.trace.clone();
     let v = v
         .trace_layout(move |ct: &BoxConstraint, l: ViewLayout<'_>| {
@@ -700,13 +809,29 @@ fn build(env: &Env, t: &T, id: &mut usize) -> ArcView<'static> {
         T::Image(h, w) => image_of(*h, *w).arc(),
         T::Fill => node_color(me).arc(),
         T::Unit => ().arc(),
-        T::Bar(hor) => ScrollBar::new(
+        T::Bar(hor, vis, off) => ScrollBar::new(
             if *hor { Axis::Horizontal } else { Axis::Vertical },
             Face::new(Some(node_color(me)), Some(node_color(me)), FaceAttrs::EMPTY),
-            ScrollBarPosition { offset: (me % 5) as f64 / 4.0, visible: (me % 3) as f64 / 2.0 },
+            ScrollBarPosition { offset: *off, visible: *vis },
         )
         .arc(),
         T::None_ => Option::<ArcView<'static>>::None.arc(),
+        T::Flex(hor, j, cs) if cs.iter().any(|c| matches!(c.flex, Fac::Direct(_))) => {
+            // unfiltered factors: `FlexChild::flex` + `FlexRef`
+            let mut children: Vec<FlexChild<ArcView<'static>>> = Vec::new();
+            for c in cs {
+                let cid = *id;
+                let mut child = FlexChild::new(build(env, &c.view, id)).align(align_of(&c.align));
+                if let Some(f) = factor_of(&c.flex) {
+                    child = child.flex(f);
+                }
+                if c.face {
+                    child = child.face(bg(strip_color(cid)));
+                }
+                children.push(child);
+            }
+            FlexRef::new(children).direction(if *hor { Axis::Horizontal } else { Axis::Vertical }).justify(justify_of(*j)).arc()
+        }
         T::Flex(hor, j, cs) => {
             let mut flex = Flex::new(if *hor { Axis::Horizontal } else { Axis::Vertical }).justify(justify_of(*j));
             for c in cs {
@@ -733,6 +858,8 @@ fn build(env: &Env, t: &T, id: &mut usize) -> ArcView<'static> {
         T::Dyn(thr, a, b) => {
             let a = build(env, a, id);
             let b = build(env, b, id);
+            env.data.lock().unwrap().insert(view_addr(&a), 'a');
+            env.data.lock().unwrap().insert(view_addr(&b), 'b');
             let thr = *thr;
             Dynamic::new(move |_ctx: &ViewContext, ct: BoxConstraint| -> ArcView<'static> {
                 if ct.max().width > thr { a.clone() } else { b.clone() }
@@ -770,6 +897,7 @@ fn factor_json(f: &Fac) -> Option<Value> {
     match f {
         Fac::None => None,
         Fac::Big => Some(json!(1e308)),
+        Fac::ApiSpecial(_) | Fac::Direct(_) => None, // not expressible; such trees take the API route
         f => factor_of(f).map(|x| json!(x)),
     }
 }
@@ -823,7 +951,7 @@ fn to_json(env: &Env, cache: &Cache, t: &T, id: &mut usize) -> Value {
         }
         T::Fill => json!({"type": "fillc", "id": me}),
         T::Unit => json!({"type": "unit"}),
-        T::Bar(hor) => json!({"type": "bar", "hor": hor, "id": me}),
+        T::Bar(hor, vis, off) => json!({"type": "bar", "hor": hor, "id": me, "vis": vis.to_bits().to_string(), "off": off.to_bits().to_string()}),
         T::None_ => {
             if me % 2 == 0 { json!({"type": "ref", "ref": 1_000_000_007i64}) } else { json!({"type": "none"}) }
         }
@@ -865,6 +993,7 @@ fn to_json(env: &Env, cache: &Cache, t: &T, id: &mut usize) -> Value {
             if me % 3 == 0 {
                 // the same shape through the view cache: `ref` lays the cached view out in a child node
                 let child = build(env, c, id);
+                env.data.lock().unwrap().insert(view_addr(&child), 't');
                 cache.0.lock().unwrap().insert(me as i64, child);
                 json!({"type": "ref", "ref": me as i64})
             } else {
@@ -909,14 +1038,20 @@ fn from_json(env: &Env, cache: Arc<Cache>, doc: &Value) -> Result<ArcView<'stati
         ScrollBar::new(
             if v["hor"].as_bool().unwrap() { Axis::Horizontal } else { Axis::Vertical },
             Face::new(Some(node_color(me)), Some(node_color(me)), FaceAttrs::EMPTY),
-            ScrollBarPosition { offset: (me % 5) as f64 / 4.0, visible: (me % 3) as f64 / 2.0 },
+            ScrollBarPosition {
+                offset: f64::from_bits(v["off"].as_str().unwrap().parse().unwrap()),
+                visible: f64::from_bits(v["vis"].as_str().unwrap().parse().unwrap()),
+            },
         )
         .arc()
     });
     de.register("frame", move |seed: &ViewDeserializer<'_>, v: &Value| Frame::new(sub(seed, &v["child"]), frame_color(), frame_color(), 0.1, 0.3).arc());
+    let e = env.clone();
     de.register("dyn", move |seed: &ViewDeserializer<'_>, v: &Value| {
         let a = sub(seed, &v["a"]);
         let b = sub(seed, &v["b"]);
+        e.data.lock().unwrap().insert(view_addr(&a), 'a');
+        e.data.lock().unwrap().insert(view_addr(&b), 'b');
         let thr = v["thr"].as_u64().unwrap() as usize;
         Dynamic::new(move |_ctx: &ViewContext, ct: BoxConstraint| -> ArcView<'static> { if ct.max().width > thr { a.clone() } else { b.clone() } }).arc()
     });
@@ -1051,11 +1186,18 @@ fn walk(t: &T, id: &mut usize, l: Option<ViewLayout<'_>>, parent: Win, glyphs: b
     }
 }
 
-fn lt_string(l: ViewLayout<'_>, out: &mut String) {
-    out.push_str(&format!("({} {} {} {}", l.position().row, l.position().col, l.size().height, l.size().width));
+fn lt_string(l: ViewLayout<'_>, data: &HashMap<usize, char>, out: &mut String) {
+    let d = if l.data::<usize>().is_some() || l.data::<Value>().is_some() {
+        't'
+    } else if let Some(v) = l.data::<ArcView<'static>>() {
+        data.get(&view_addr(v)).copied().unwrap_or('?')
+    } else {
+        '-'
+    };
+    out.push_str(&format!("({} {} {} {} {d}", l.position().row, l.position().col, l.size().height, l.size().width));
     for k in l.children() {
         out.push(' ');
-        lt_string(k, out);
+        lt_string(k, data, out);
     }
     out.push(')');
 }
@@ -1102,13 +1244,45 @@ struct Exec {
     fails: Vec<(String, String, String)>,
     attributed: usize,
     path_checks: usize,
+    diff_checks: usize,
+}
+/// `Cell` equality by content (images and glyphs compare by address in the crate)
+fn same_cell(a: Option<&Cell>, b: Option<&Cell>) -> bool {
+    use surf_n_term::render::CellKind;
+    if a == b {
+        return true;
+    }
+    let (Some(a), Some(b)) = (a, b) else { return false };
+    if a.face() != b.face() {
+        return false;
+    }
+    match (a.kind(), b.kind()) {
+        (CellKind::Char(x), CellKind::Char(y)) => x == y,
+        (CellKind::Image(x), CellKind::Image(y)) => x.size() == y.size() && x.iter().map(|p| p.to_rgba()).eq(y.iter().map(|p| p.to_rgba())),
+        (CellKind::Glyph(x), CellKind::Glyph(y)) => x.size() == y.size() && x.fallback_str() == y.fallback_str(),
+        _ => false,
+    }
+}
+fn kind_name(t: &T) -> &'static str {
+    match t {
+        T::Text(..) => "text",
+        T::Str(..) => "str",
+        T::Glyph(..) => "glyph",
+        T::Probe(..) => "probe",
+        T::Surface(..) => "surface view",
+        T::Ascii(..) => "ascii image",
+        T::Image(..) => "image",
+        T::Fill => "colour",
+        T::Bar(..) => "scroll bar",
+        _ => "view",
+    }
 }
 
 fn shape_str(s: &Shape) -> String {
-    format!("{},{},{},{},{},{}", s.start, s.end, s.width, s.height, s.row_stride, s.col_stride)
+    format!("{},{},{},{},{}", s.start, s.width, s.height, s.row_stride, s.col_stride)
 }
 
-fn exec(case: &Case, view: &ArcView<'static>, env: &Env, sample_rng: &mut Rng) -> Exec {
+fn exec(case: &Case, view: &ArcView<'static>, env: &Env, sample_rng: &mut Rng, diff_leaves: usize) -> Exec {
     let mut ex = Exec::default();
     let ctx = make_ctx(case.glyphs, case.ppc);
     let ct = BoxConstraint::new(Size::new(case.ct[0], case.ct[1]), Size::new(case.ct[2], case.ct[3]));
@@ -1123,7 +1297,7 @@ fn exec(case: &Case, view: &ArcView<'static>, env: &Env, sample_rng: &mut Rng) -
             return ex;
         }
     };
-    lt_string(layout.view(), &mut ex.layout);
+    lt_string(layout.view(), &env.data.lock().unwrap(), &mut ex.layout);
 
     // reported size within the constraint, for the kinds the property names
     let mut kinds = Vec::new();
@@ -1236,21 +1410,21 @@ fn exec(case: &Case, view: &ArcView<'static>, env: &Env, sample_rng: &mut Rng) -
         };
         if let Some((strip, id)) = owner {
             ex.attributed += 1;
-            let (win, ptr, last) = if strip {
+            let (win, ptr) = if strip {
                 match acc.strip.get(&id) {
-                    Some((w, p)) => (*w, *p, false),
-                    None => (None, std::ptr::null(), false),
+                    Some((w, p)) => (*w, *p),
+                    None => (None, std::ptr::null()),
                 }
             } else {
                 match acc.node.get(&id) {
-                    Some((w, p, _)) => (*w, *p, !matches!(kinds.get(id), Some(T::Cont(..)))),
-                    None => (None, std::ptr::null(), false),
+                    Some((w, p, _)) => (*w, *p),
+                    None => (None, std::ptr::null()),
                 }
             };
             if !inside(win, PAD_R + r, PAD_C + c) {
                 ex.fails.push((format!("cell ({r},{c}) painted by node {id}{} outside of the rectangle the layout tree records for it", if strip { " (flex child face)" } else { "" }), format!("{win:?}"), format!("canvas ({},{})", PAD_R + r, PAD_C + c)));
             } else if let Some(chain) = chain.as_ref() {
-                let ok = if last { chain.last() == Some(&ptr) } else { chain.contains(&ptr) };
+                let ok = chain.contains(&ptr);
                 if !ok {
                     ex.fails.push((format!("hit testing ({r},{c}) does not identify node {id} that is drawn there"), "layout of the painter in the find_path chain".into(), format!("chain of {} layouts without it", chain.len())));
                 }
@@ -1259,6 +1433,44 @@ fn exec(case: &Case, view: &ArcView<'static>, env: &Env, sample_rng: &mut Rng) -
     }
     if let Some(b) = first_bad {
         ex.fails.push(("find_path is not the chain of layouts containing the position".into(), "first child containing the position at every level".into(), b));
+    }
+    // differential rendering: every leaf view, of every kind, changes only cells inside the rectangle the
+    // layout tree records for it (composed along the path and clipped)
+    let mut leaves: Vec<usize> = (0..kinds.len())
+        .filter(|id| laid.contains(id) && matches!(kinds[*id], T::Text(..) | T::Str(..) | T::Glyph(..) | T::Probe(..) | T::Surface(..) | T::Ascii(..) | T::Image(..) | T::Fill | T::Bar(..)))
+        .collect();
+    while leaves.len() > diff_leaves {
+        let i = sample_rng.below(leaves.len() as u64) as usize;
+        leaves.swap_remove(i);
+    }
+    for k in leaves {
+        let env2 = Env { mute: Some(k), ..Env::default() };
+        let Ok(Ok(view2)) = build_view(case, &env2) else { continue };
+        let mut store2 = ViewLayoutStore::new();
+        let Ok(layout2) = view2.layout_new(&ctx, ct, &mut store2) else { continue };
+        let mut l2 = String::new();
+        lt_string(layout2.view(), &env2.data.lock().unwrap(), &mut l2);
+        if l2 != ex.layout {
+            ex.fails.push(("harness: muting a leaf changed the layout".into(), ex.layout.clone(), l2));
+            continue;
+        }
+        let mut canvas2 = SurfaceOwned::new_with(Size::new(sh + 2 * PAD_R, cw), |_| sentinel());
+        if view2.render(&ctx, canvas2.view_mut(PAD_R..PAD_R + sh, PAD_C..PAD_C + sw), layout2.view()).is_err() {
+            continue;
+        }
+        ex.diff_checks += 1;
+        let win = acc.node.get(&k).map(|x| x.0).unwrap_or(None);
+        let mut bad = None;
+        for r in 0..sh + 2 * PAD_R {
+            for c in 0..cw {
+                if !same_cell(canvas.get(Position::new(r, c)), canvas2.get(Position::new(r, c))) && !inside(win, r, c) {
+                    bad.get_or_insert((r, c));
+                }
+            }
+        }
+        if let Some((r, c)) = bad {
+            ex.fails.push((format!("leaf view {k} ({}) draws outside of the rectangle the layout tree records for it", kind_name(kinds[k])), format!("{win:?}"), format!("canvas cell ({r},{c}) changes when the leaf is not drawn")));
+        }
     }
     // a few find_path answers for the correspondence with the model
     for _ in 0..3 {
@@ -1269,27 +1481,59 @@ fn exec(case: &Case, view: &ArcView<'static>, env: &Env, sample_rng: &mut Rng) -
     ex
 }
 
-/// run `f` in a forked child; false if the child died (stack overflow, abort) or did not finish
-fn survives_in_child(f: impl FnOnce()) -> bool {
+fn build_view(case: &Case, env: &Env) -> Result<Result<ArcView<'static>, String>, ()> {
+    guarded(|| {
+        if case.json {
+            let cache = Arc::new(Cache(Mutex::new(HashMap::new())));
+            let doc = to_json(env, &cache, &case.tree, &mut 0);
+            from_json(env, cache, &doc)
+        } else {
+            Ok(build(env, &case.tree, &mut 0))
+        }
+    })
+}
+
+#[derive(PartialEq, Debug)]
+enum ChildEnd {
+    Finished,
+    TimedOut,
+    Died,
+}
+/// run `f` in a forked child with a time limit (seconds)
+fn run_in_child(limit: u32, f: impl FnOnce()) -> ChildEnd {
     unsafe {
         let pid = libc::fork();
         if pid == 0 {
-            libc::alarm(20);
+            EXPIRED = true; // in the child the first expiry is final
+            libc::alarm(limit);
             f();
             libc::_exit(0);
         }
         let mut status = 0;
         libc::waitpid(pid, &mut status, 0);
-        libc::WIFEXITED(status) && libc::WEXITSTATUS(status) == 0
+        if libc::WIFEXITED(status) && libc::WEXITSTATUS(status) == 0 {
+            ChildEnd::Finished
+        } else if libc::WIFEXITED(status) && libc::WEXITSTATUS(status) == 3 {
+            ChildEnd::TimedOut
+        } else {
+            ChildEnd::Died
+        }
     }
 }
 
-/// watchdog: a case that runs longer than 60 s is reported on stderr and ends the harness
+/// watchdog: a case that runs longer than 60 s gets one extension to 15 minutes (a loaded machine is not
+/// a violation); if it still does not finish it is reported on stderr and ends the harness
 static mut CURRENT: [u8; 4096] = [0; 4096];
 static mut CURRENT_LEN: usize = 0;
+static mut EXPIRED: bool = false;
 extern "C" fn on_alarm(_sig: libc::c_int) {
     unsafe {
-        let head = b"C10 harness: case does not finish within 60 s: ";
+        if !EXPIRED {
+            EXPIRED = true;
+            libc::alarm(840);
+            return;
+        }
+        let head = b"C10 harness: case does not finish within its time limit: ";
         libc::write(2, head.as_ptr() as *const libc::c_void, head.len());
         let cur = &raw const CURRENT;
         libc::write(2, cur as *const libc::c_void, CURRENT_LEN);
@@ -1304,6 +1548,7 @@ fn watchdog(case_text: &str) {
         let cur = &raw mut CURRENT;
         (&mut (*cur))[..n].copy_from_slice(&bytes[..n]);
         CURRENT_LEN = n;
+        EXPIRED = false;
         libc::alarm(60);
     }
 }
@@ -1312,6 +1557,9 @@ struct Runner {
     out: Out,
     sample_rng: Rng,
     n: u64,
+    /// how many leaves per case get the differential rendering check
+    diff_leaves: usize,
+    diff_total: u64,
 }
 
 impl Runner {
@@ -1327,21 +1575,13 @@ impl Runner {
             self.out.hist("skipped:scrollbar-under-huge-extent");
             return;
         }
-        let env = Env { probes: Default::default(), trace: Default::default() };
+        let env = Env::default();
         watchdog(input["model_request"].as_str().unwrap_or(""));
         if std::env::var("C10_TRACE").is_ok() {
             eprintln!("{}", input["model_request"]);
         }
         // build
-        let built = guarded(|| {
-            if case.json {
-                let cache = Arc::new(Cache(Mutex::new(HashMap::new())));
-                let doc = to_json(&env, &cache, &case.tree, &mut 0);
-                from_json(&env, cache, &doc)
-            } else {
-                Ok(build(&env, &case.tree, &mut 0))
-            }
-        });
+        let built = build_view(case, &env);
         let view = match built {
             Ok(Ok(v)) => v,
             Ok(Err(e)) => {
@@ -1359,16 +1599,25 @@ impl Runner {
         let risky = dyn_in_dyn(&case.tree, false) || case.ct[2] >= 4096 || case.ct[3] >= 4096;
         if risky {
             self.out.hist("tried-in-child-process-first");
-            let mut r = self.sample_rng.clone();
-            let alive = survives_in_child(|| {
-                let _ = guarded(|| exec(case, &view, &env, &mut r));
-            });
-            if !alive {
-                self.out.fail("layout + render does not terminate or aborts the process", input, json!("terminates"), json!("child process died (stack overflow / abort / timeout)"));
+            let mut end = ChildEnd::Finished;
+            for limit in [20u32, 600] {
+                let mut r = self.sample_rng.clone();
+                end = run_in_child(limit, || {
+                    let _ = guarded(|| exec(case, &view, &env, &mut r, 0));
+                });
+                if end != ChildEnd::TimedOut {
+                    break; // a time-out is only believed after a second run with a long limit
+                }
+                self.out.hist("child-timeout-retried");
+            }
+            if end != ChildEnd::Finished {
+                let got = if end == ChildEnd::Died { "child process died (stack overflow / abort)" } else { "child process did not finish within 20 s nor, re-run, within 600 s" };
+                self.out.fail("layout + render does not terminate or aborts the process", input, json!("terminates"), json!(got));
                 return;
             }
         }
-        let res = guarded(|| exec(case, &view, &env, &mut self.sample_rng));
+        let diff_leaves = self.diff_leaves;
+        let res = guarded(|| exec(case, &view, &env, &mut self.sample_rng, diff_leaves));
         let nodes = count_nodes(&case.tree);
         let grid = case.ct[2] < (1 << 20) && case.ct[3] < (1 << 20);
         let corr_ok = !has_flex_factor(&case.tree) || grid;
@@ -1389,6 +1638,7 @@ impl Runner {
             Ok(ex) => {
                 self.out.hist("res:ok");
                 self.out.hist(&format!("attributed-cells:{}", if ex.attributed == 0 { "0" } else { ">0" }));
+                self.diff_total += ex.diff_checks as u64;
                 if corr_ok {
                     self.out.corr(&format!("c10 layout {head} {toks}"), &ex.layout);
                     if ex.render == "ok" || ex.render == "invalid-layout" {
@@ -1423,6 +1673,9 @@ fn case_parse(v: &Value) -> Case {
     }
 }
 
+fn bar(hor: bool) -> T {
+    T::Bar(hor, 0.5, 0.25)
+}
 fn probe(h: usize, w: usize) -> T {
     T::Probe(h, w)
 }
@@ -1454,7 +1707,7 @@ fn corner_cases() -> Vec<Case> {
         v.push(Case { json, ..base(t, [0, 0, 4, 20], (4, 20)) });
     }
     // huge margins; children that report a size under a zero constraint
-    for child in [T::Fill, T::Bar(true), T::Bar(false), T::Frame(Box::new(T::Fill)), T::Tag(Box::new(T::Bar(true))), probe(3, 3)] {
+    for child in [T::Fill, bar(true), bar(false), T::Frame(Box::new(T::Fill)), T::Tag(Box::new(bar(true))), probe(3, 3)] {
         for mm in [[0, 0, m, 0], [m, 0, 0, 0], [0, m, 0, m], [m, m, m, m], [m - 5, 0, m - 5, 0], [3, 3, 2, 2]] {
             v.push(base(cont(0, 0, Al::K, Al::K, mm, true, child.clone()), [0, 0, 5, 5], (5, 5)));
             v.push(base(cont(4, 4, Al::O(7), Al::O(i32::MAX), mm, true, child.clone()), [0, 0, 10, 10], (6, 6)));
@@ -1473,8 +1726,30 @@ fn corner_cases() -> Vec<Case> {
     }
     for e in [1usize << 32, 1 << 63, m] {
         v.push(base(T::Flex(true, 3, vec![fc(Fac::None, Al::S, true, T::Fill), fc(Fac::None, Al::E, true, T::Fill)]), [0, 0, e, e], (4, 6)));
-        v.push(base(T::Flex(false, 5, vec![fc(Fac::None, Al::S, true, probe(e, e)), fc(Fac::None, Al::C, false, T::Fill), fc(Fac::None, Al::C, false, T::Bar(false))]), [0, 0, e, e], (4, 6)));
+        v.push(base(T::Flex(false, 5, vec![fc(Fac::None, Al::S, true, probe(e, e)), fc(Fac::None, Al::C, false, T::Fill), fc(Fac::None, Al::C, false, bar(false))]), [0, 0, e, e], (4, 6)));
         v.push(base(T::Frame(Box::new(T::Frame(Box::new(T::Fill)))), [e, e, e, e], (4, 6)));
+    }
+    // huge pixels per cell: Image::render multiplies the surface extent by it
+    for p in [1usize << 40, 1 << 62, usize::MAX] {
+        v.push(Case { ppc: (p, p), ..base(T::Image(2, 3), [4, 4, 4, 4], (5, 5)) });
+        v.push(Case { ppc: (p, 3), ..base(T::Flex(false, 0, vec![fc(Fac::None, Al::S, false, T::Image(70, 20)), fc(Fac::Pos(4, 4), Al::E, true, T::Text(vec![TC::Img(9, 9), TC::Ch(Ch::W(1))], true))]), [0, 0, 6, 6], (6, 6)) });
+    }
+    // scroll bar: thumb offset + size at the top of the usize range; fractions outside [0, 1], NaN
+    v.push(base(T::Bar(false, 1.0 - f64::EPSILON / 2.0, 1.0), [0, 0, m, 1], (3000, 1)));
+    v.push(base(T::Bar(true, 1.0 - f64::EPSILON / 2.0, 1.0), [0, 0, 1, m], (1, 3000)));
+    for (vis, off) in [(f64::NAN, f64::NAN), (-1.0, -1.0), (0.5, 3.0), (0.5, f64::INFINITY), (f64::INFINITY, 0.5), (0.0, 1.0), (2.0, 0.5), (0.3, 0.7)] {
+        v.push(base(T::Bar(true, vis, off), [0, 0, 2, 10], (2, 10)));
+        v.push(base(T::Flex(false, 0, vec![fc(Fac::None, Al::S, false, T::Bar(false, vis, off)), fc(Fac::None, Al::S, false, probe(1, 1))]), [0, 0, 7, 3], (7, 3)));
+    }
+    // special flex factors: +inf passes the filter of push_child_ext; unfiltered NaN / -inf / negative / zero
+    for f in [Fac::ApiSpecial(0), Fac::ApiSpecial(1), Fac::ApiSpecial(2)] {
+        v.push(base(T::Flex(true, 0, vec![fc(Fac::Pos(4, 4), Al::S, true, T::Fill), fc(f.clone(), Al::S, true, T::Fill), fc(Fac::None, Al::E, false, probe(1, 2)), fc(Fac::Pos(8, 4), Al::S, false, probe(1, 30))]), [0, 0, 3, 20], (3, 20)));
+    }
+    for (a, b) in [(FV::Nan, FV::Fin(false, 4, 4)), (FV::Inf(false), FV::Inf(true)), (FV::Inf(false), FV::Fin(false, 4, 4)), (FV::Fin(true, 8, 4), FV::Fin(false, 12, 4)),
+                   (FV::Fin(false, 12, 4), FV::Fin(true, 12, 4)), (FV::Fin(true, 4, 4), FV::Fin(true, 4, 4)), (FV::Fin(false, 0, 4), FV::Fin(false, 4, 4)), (FV::Fin(false, 4, 4), FV::Inf(false))] {
+        for w in [7usize, 20] {
+            v.push(base(T::Flex(true, 4, vec![fc(Fac::Direct(a.clone()), Al::S, true, T::Fill), fc(Fac::None, Al::C, false, probe(1, 3)), fc(Fac::Direct(b.clone()), Al::E, true, probe(2, 30)), fc(Fac::Direct(FV::Fin(false, 2, 4)), Al::S, false, T::Fill)]), [0, 0, 3, w], (3, 20)));
+        }
     }
     // Dynamic directly inside Dynamic (also through a frame without glyph support)
     for g in [true, false] {
@@ -1506,10 +1781,67 @@ fn corner_cases() -> Vec<Case> {
         for f in [0usize, 1, 2, 3] {
             v.push(base(T::Frame(Box::new(cont(0, 0, Al::E, Al::E, [0, 1, 0, 1], true, probe(2, 2)))), [0, 0, e, f], (3, 3)));
             v.push(Case { glyphs: false, ..base(T::Frame(Box::new(probe(2, 2))), [e.min(f), 0, e, f], (3, 3)) });
-            v.push(base(T::Bar(e % 2 == 0), [e.min(f), f.min(e), e, f], (3, 3)));
+            v.push(base(bar(e % 2 == 0), [e.min(f), f.min(e), e, f], (3, 3)));
         }
     }
     v
+}
+
+/// scroll bar thumb: the cells the implementation paints vs the model of the `f64` arithmetic
+/// (fractions on the grid k/8 incl. negative and above one, and the special values)
+fn bar_case(runner: &mut Runner, rng: &mut Rng) {
+    let major = match rng.below(4) {
+        0 => 1 + rng.below(12) as usize,
+        1 | 2 => 1 + rng.below(60) as usize,
+        _ => 1 + rng.below((1 << 20) - 1) as usize,
+    };
+    let n = 1 + rng.below(60) as usize;
+    let frac = |rng: &mut Rng| match rng.below(14) {
+        0 => FV::Nan,
+        1 => FV::Inf(rng.chance(1, 2)),
+        2 => FV::Fin(true, rng.below(17), 8),
+        3 => FV::Fin(false, 8 + rng.below(17), 8),
+        _ => FV::Fin(false, rng.below(9), 8),
+    };
+    let (vis, off) = (frac(rng), frac(rng));
+    let hor = rng.chance(1, 2);
+    let thumb = RGBA::new(200, 1, 1, 255);
+    let track = RGBA::new(1, 200, 1, 255);
+    let view = ScrollBar::new(
+        if hor { Axis::Horizontal } else { Axis::Vertical },
+        Face::new(Some(thumb), Some(track), FaceAttrs::EMPTY),
+        ScrollBarPosition { offset: fv_f64(&off), visible: fv_f64(&vis) },
+    );
+    let req = format!("c10 bar {major} {n} {} {}", fv_tok(&vis), fv_tok(&off));
+    watchdog(&req);
+    let ctx = make_ctx(true, (37, 15));
+    let got = guarded(|| {
+        let ct = BoxConstraint::loose(if hor { Size::new(1, major) } else { Size::new(major, 1) });
+        let mut store = ViewLayoutStore::new();
+        let layout = view.layout_new(&ctx, ct, &mut store).map_err(|_| ())?;
+        let mut surf = SurfaceOwned::<Cell>::new(if hor { Size::new(1, n) } else { Size::new(n, 1) });
+        view.render(&ctx, surf.as_mut(), layout.view()).map_err(|_| ())?;
+        let mut cells = String::new();
+        for i in 0..major.min(n) {
+            let c = surf.get(if hor { Position::new(0, i) } else { Position::new(i, 0) }).cloned().unwrap_or_default();
+            cells.push(if c.face().bg == Some(thumb) { '1' } else if c.face().bg == Some(track) { '0' } else { '?' });
+        }
+        Ok::<String, ()>(cells)
+    });
+    runner.out.case(&req, true);
+    runner.out.hist("class:scroll-bar-thumb");
+    match got {
+        Ok(Ok(cells)) => {
+            runner.out.corr(&req, &cells);
+            // independent of the model: the thumb is one run of cells, as many as the rounded size allows
+            let ones = cells.matches('1').count();
+            let run = cells.trim_matches('0');
+            if cells.contains('?') || run.contains('0') || (ones == 0 && false) {
+                runner.out.fail("scroll bar does not paint one contiguous thumb inside its surface", json!({"model_request": req}), json!("track* thumb* track*"), json!(cells));
+            }
+        }
+        _ => runner.out.fail("layout or render panics", json!({"model_request": req, "scrollbar": true}), json!("no panic"), json!("panic or error")),
+    }
 }
 
 fn main() {
@@ -1523,7 +1855,7 @@ fn main() {
     }
     let mut rng = Rng::new(cfg.seed);
     let sample_rng = rng.fork();
-    let mut runner = Runner { out, sample_rng, n: 0 };
+    let mut runner = Runner { out, sample_rng, n: 0, diff_leaves: if cfg.thorough { 1 } else { 6 }, diff_total: 0 };
     if let Some(replay) = cfg.replay.as_ref() {
         let case = case_parse(&replay["failure"]["input"]);
         runner.run(&case, "replay");
@@ -1532,19 +1864,25 @@ fn main() {
     }
     for case in corner_cases() {
         runner.run(&case, "corner");
-        let mut j = case.clone();
-        j.json = !j.json;
-        runner.run(&j, "corner");
+        if !api_only(&case.tree) {
+            let mut j = case.clone();
+            j.json = !j.json;
+            runner.run(&j, "corner");
+        }
     }
     let n = if cfg.thorough { 400_000 } else { 4_000 };
-    for _ in 0..n {
+    for i in 0..n {
         let case = gen_case(&mut rng);
         runner.run(&case, "random");
+        if i % 4 == 0 {
+            bar_case(&mut runner, &mut rng);
+        }
     }
     let _ = std::io::stdout().flush();
     unsafe {
         libc::alarm(0);
     }
+    runner.out.extra("differential_leaf_renders", json!(runner.diff_total));
     runner.out.extra("grid", json!({"factors": "k/4, 1 <= k <= 64 (plus one factor 1e308 as last flex child, and raw zero / negative factors)", "correspondence_extents": "< 2^20 when the tree has flex factors", "oracle_extents": "0 .. usize::MAX"}));
     runner.out.finish("random view trees (depth <= 4, 0-5 flex children, all justify / align values incl. offsets, factors on the k/4 grid, margins and sizes incl. 0 and usize::MAX) through the API and through JSON, under constraints min <= max incl. 0, 1 and huge extents, both glyph settings, rendered into a window of a sentinel canvas; non-trivial = at least two views; distinct by (context, constraint, tree, surface, route)");
 }
